@@ -75,10 +75,31 @@ RAW_RE = re.compile(r'\bACTION_ECHO\b(?!_Q)|\bECHO\b|add_action\s*\(\s*yytext|bu
 ESC_RE = re.compile(r'ACTION_ECHO_Q(START|END)|escaped_q(start|end)')
 OUTSIDE_RE = re.compile(r'add_action\s*\(\s*"\]""\]"\s*\)\s*;\s*add_action\s*\(\s*yytext\s*\)\s*;\s*add_action\s*\(\s*"\[""\["\s*\)')
 
+PUTBACK_RE = re.compile(r'\byyless\s*\(\s*0\s*\)\s*;')
+
+def _block_path(action, pos):
+    """positions of the braces that are open at `pos` of the action text"""
+    st = []
+    for i, c in enumerate(action[:pos]):
+        if c == '{': st.append(i)
+        elif c == '}' and st: st.pop()
+    return tuple(st)
+
+def echoes_after_putback(action):
+    """every raw echo of the action is preceded by a yyless(0) of an enclosing block: the whole token has been put back to
+    be re-scanned and yytext is empty, so the echo copies nothing (the text is judged where it is re-scanned)"""
+    raws = [m.start() for m in RAW_RE.finditer(action)]
+    puts = [m.start() for m in PUTBACK_RE.finditer(action)]
+    if not raws or not puts: return False
+    for r in raws:
+        rp = _block_path(action, r)
+        if not any(p < r and rp[:len(_block_path(action, p))] == _block_path(action, p) for p in puts): return False
+    return True
+
 def classify(action):
     if OUTSIDE_RE.search(action): return 'outside'
     if ESC_RE.search(action): return 'escaped'
-    if RAW_RE.search(action): return 'raw'
+    if RAW_RE.search(action): return 'other' if echoes_after_putback(action) else 'raw'
     return 'other'
 
 def channel_of(action):
